@@ -319,7 +319,9 @@ def native_exe(q, asan=False):
     extn = [e for e in (extl[0] if extl else []) if any(re.search(rx, e) for rx in q.ob.get('allow_external', []))]
     if extn:
         with open(os.path.join(q.wd, 'native_ext.c'), 'w') as f:
-            for e in extn: f.write('char %s[512];\n' % e)
+            for e in extn:
+                if e.startswith('_ZSt') or e.startswith('__libc'): continue     # provided by libstdc++ / libc (some are thread-local)
+                f.write('char %s[512];\n' % e)
         must([CLANG, '-O0', '-w', '-c', 'native_ext.c', '-o', name + '.ext.o'], 'native build (externals)', cwd=q.wd); objs.append(name + '.ext.o')
     und = run(['nm', '-u', name + '.mod.o'], cwd=q.wd)['out']
     ntus = list(q.ob.get('native_tus', []))
@@ -330,8 +332,20 @@ def native_exe(q, asan=False):
         must([CLANGXX, '-O1', '-w', '-c', '-std=c++14', '-fno-rtti', '-fno-exceptions', '-DNDEBUG', '-I' + REPO + '/include', '-I' + REPO + '/lib/llvm/Support',
               '-include', REPO + '/include/libstdc++14-workaround.h', repo_path(t), '-o', o], 'native build (' + t + ')', cwd=q.wd)
         objs.append(o)
-    cmd = [CLANGXX] + san + objs + list(q.ob.get('native_libs', [])) + ['-lpthread', '-o', exe]
-    must(cmd, 'native build', cwd=q.wd)
+    cmd = [CLANGXX] + san + objs + list(q.ob.get('native_libs', [])) + ['-lpthread', '-Wl,--no-demangle', '-o', exe]
+    r = run(cmd, cwd=q.wd, timeout=600)
+    if r['rc'] != 0 and q.ob.get('assert_external'):
+        # functions the obligation declares unreachable (assert_external) have an asserting body in the encoding;
+        # the native build gets the same: a body that reports the unexpected call
+        syms = sorted(set(re.findall(r"undefined reference to `([A-Za-z_][A-Za-z0-9_]*)'", r['err'])))
+        syms = [x for x in syms if any(re.search(rx, x) for rx in q.ob['assert_external'])]
+        if syms:
+            with open(os.path.join(q.wd, name + '_unexp.c'), 'w') as f:
+                f.write('#include <stdio.h>\n#include <stdlib.h>\n')
+                for x in syms: f.write('void %s(void) { printf("VF-ASSERT-FAIL: harness: unexpected call of %s\\n"); fflush(stdout); _Exit(1); }\n' % (x, x[:80]))
+            must([CLANG, '-O0', '-w', '-c', name + '_unexp.c', '-o', name + '.unexp.o'], 'native build (unexpected-call bodies)', cwd=q.wd)
+            cmd = cmd[:-2] + [name + '.unexp.o'] + cmd[-2:]
+    if r['rc'] != 0: must(cmd, 'native build', cwd=q.wd)
     return exe
 
 def c_exe(q):
